@@ -69,6 +69,7 @@ def one_case(ctx, index: int, rng: random.Random):
     mechanism = None
     if kind == "prepared":
         bins_arg = _prepared_object(rng)
+        gen.touch_binning(rng, bins_arg)
         pairs = np.asarray(bins_arg.bins, dtype=float).tolist()
         data = gen.data_for_bins(rng, pairs, n, nan_ok=rng.random() < 0.3)
     elif kind in ("edges", "pairs", "gapped", "tinygap", "object", "single"):
@@ -87,6 +88,7 @@ def one_case(ctx, index: int, rng: random.Random):
             bins_arg = np.array(pairs) if rng.random() < 0.8 else [list(p) for p in pairs]
         else:
             bins_arg, _ = _binning_object(rng, pairs, cons)
+            gen.touch_binning(rng, bins_arg)  # representations read before use must not change what the object means
         data = gen.data_for_bins(rng, pairs, n, nan_ok=rng.random() < 0.4)
         if kind == "tinygap" and data:
             gaps = [(pairs[i][1], pairs[i + 1][0]) for i in range(len(pairs) - 1) if pairs[i][1] != pairs[i + 1][0]]
